@@ -39,7 +39,7 @@ func LoadProgram(repo, harnessDir string) (*Program, error) {
 		}
 	}
 	cfg := &packages.Config{Mode: packages.LoadAllSyntax, Dir: repo, Tests: false, Overlay: overlay,
-		Env: append(os.Environ(), "GOFLAGS=-mod=mod", "GOPROXY=off", "GOTOOLCHAIN=local", "CGO_ENABLED=0")}
+		Env: append(os.Environ(), "GOPROXY=off", "GOTOOLCHAIN=local", "CGO_ENABLED=0")}
 	pkgs, err := packages.Load(cfg, "./internal/server", "./internal/cmd")
 	if err != nil {
 		return nil, err
